@@ -403,7 +403,16 @@ pub fn statics(bin: &str, input: &str, output: &str, dir: &str) -> Value {
 		let segs: Vec<&str> = c["segs"].as_array().unwrap().iter().map(|s| s.as_str().unwrap()).collect();
 		let mount = c["mount"].as_str().unwrap();
 		let target = format!("{}/{}", if mount.is_empty() { String::new() } else { format!("/{mount}") }, segs.join("/"));
-		let resp = match client.as_mut().and_then(|cl| cl.get(&target, &[("Accept-Encoding", "gzip, br")])) {
+		// content negotiation of static files (beyond C07): the client's Accept-Encoding varies with the case
+		let (acc_name, acc_header, acc_list): (&str, &str, Vec<&str>) = match i % 4 {
+			0 => ("all", "gzip, br", vec!["gzip", "br"]),
+			1 => ("none", "", vec![]),
+			2 => ("gzip", "gzip", vec!["gzip"]),
+			_ => ("br", "br", vec!["br"]),
+		};
+		let hs: Vec<(&str, &str)> = if acc_header.is_empty() { vec![] } else { vec![("Accept-Encoding", acc_header)] };
+		let mut cenc = String::new();
+		let resp = match client.as_mut().and_then(|cl| cl.get(&target, &hs)) {
 			None => {
 				dropped += 1;
 				json!({"status":-1,"file":"","outside":0})
@@ -426,7 +435,12 @@ pub fn statics(bin: &str, input: &str, output: &str, dir: &str) -> Value {
 				json!({"status":r.status,"file":file,"outside":outside})
 			}
 		};
-		out.emit(&json!({"ev":"static","id":i,"q":c,"resp":resp,"target":target}));
+		let mut q = c.clone();
+		q["acc"] = json!(acc_name);
+		q["accept"] = json!(acc_list);
+		let mut resp = resp;
+		resp["cenc"] = json!(cenc);
+		out.emit(&json!({"ev":"static","id":i,"q":q,"resp":resp,"target":target}));
 	}
 	drop(client);
 	drop(server);
